@@ -160,7 +160,7 @@ def build_props(pid, thorough=False, log=None):
         return dict(ok=False, theorems=[], axioms=[], out='missing ' + rel, checker_cmd='')
     ensure_makefile()
     vo = path + 'o'
-    if thorough:
+    if thorough and not os.environ.get('VERIF_KEEP_VO'):   # VERIF_KEEP_VO=1: development runs in a tree shared with other runs
         deps = prop_cone(pid)
         for d in deps:
             for ext in ('.vo', '.glob', '.vos', '.vok'):
